@@ -1407,6 +1407,13 @@ func sioCorpus() []*sioCase {
 		msg(`{"tag":"unrouted-op","delete":["a"],"update":{"c":{"spec":{"inline":{"name":"L7","doc":"fwd"}}}}}`),
 		msg(`{"to":"*","tag":"star","delete":["b"]}`), msg(`{"to":"a","tag":"still-there"}`),
 		msg(`{"to":"captain","delete":["a"]}`), msg(`{"tag":"after"}`)}})
+	cs = append(cs, &sioCase{Kind: "timer requests: cancel an existing timer; requests that do not name the timers machine", Ops: []*sioOp{create("a", "L0", "fwd"),
+		msg(`{"to":"timers","makeTimer":{"in":"1h","msg":{"tag":"fired"},"id":"T1"}}`),
+		msg(`{"cancelTimer":"T1","tag":"not-for-timers"}`),
+		msg(`{"to":"a","cancelTimer":"T1","tag":"for-a"}`),
+		msg(`{"to":"timers","cancelTimer":"T1"}`),
+		msg(`{"to":"timers","makeTimer":{"in":"1h","msg":{"tag":"again"},"id":"T1"},"cancelTimer":"T9"}`),
+		msg(`{"to":["a","timers"],"cancelTimer":"T1","tag":"both"}`)}})
 	// a burst: one walk emits 1300 messages for another machine, which all are delivered and reported
 	burst := make([]interface{}, 1300)
 	for i := range burst {
